@@ -30,6 +30,12 @@ Next ==
     \/ CallReturn(Env) \/ CallRaise
 
 Spec == MInit /\ [][Next]_mvars
+(* liveness (checked without a state constraint): under weak fairness every call that was started is completed, *)
+(* whatever the completion order of the workers                                                                 *)
+InCall == \/ PrepSkip \/ PrepRun(Env) \/ PrepRefuse(Env) \/ (\E i \in 1..MaxBatch : Answer(Env, i, FALSE)) \/ Spawn
+          \/ (\E i \in 1..MaxBatch : WorkerDone(Env, i, FALSE)) \/ CallReturn(Env) \/ CallRaise
+FairSpec == Spec /\ WF_mvars(InCall)
+CallTerminates == (pc # "idle") ~> (pc = "idle")
 
 RowsOK    == RowsOwnKey(Env)
 NoLeak    == NoWorkersOutsideCall
